@@ -388,7 +388,9 @@ def run(ctx):
                 "own _handle_close / _unlink (remote ids differ from local ids and often equal another live channel's "
                 "local id), OPEN_SUCCESS / OPEN_FAILURE naming opening, established and unknown ids; two-thread "
                 "schedules pausing one open inside _next_channel and running the other if Transport.lock is free, for "
-                "peer/local, local/local and local/peer with the real open_channel and _parse_channel_open; a case is "
+                "peer/local, local/local and local/peer with the real open_channel and _parse_channel_open; "
+                "Channel.close() by the application (the channel stays registered until the peer's CLOSE and keeps "
+                "its id); open_channel(timeout=...) running out next to a pending peer open; a case is "
                 "non-trivial when it allocates at least two ids")
     ctx.trusted += ["model coq/Model/C23.v is hand-written; tied to paramiko/transport.py (_next_channel, ChannelMap, "
                     "_unlink_channel, _parse_channel_open; open_channel's critical section is replayed by the "
